@@ -26,6 +26,7 @@ ASSUMPTIONS = [
     "content comparison tolerates one leading line terminator (some grammars include it in the comment node); for Markdown comment forms all leading line terminators (the node takes the blank line that must follow it)",
     "Kotlin files never put code after a block comment on the same line (known finding C03/kotlin-inline, exercised by its own witness)",
     "Java text blocks are not used as decoys in the random workload (known finding C03/java-textblock, own witness); Swift: see known finding swift-comments-swallowed",
+    "C/C++ string literals continued with a backslash at the end of the line are only used as decoys in LF files (known finding C03/c-crlf-continuation, own witness)",
     "Markdown: a pair's two tags use the same comment family (link-definition vs HTML); blockwatch pairs them on separate stacks",
 ]
 
@@ -209,6 +210,10 @@ def run_job(job, ctx):
         for j in range(6):
             r = rng("c03i", job["seed"], suffix, job["i"], j)
             out.append(check_file(ctx, suffix, _interp_file(r, lang, script), flavour, dict(job, j=j)))
+    elif job["k"] == "witness-file":
+        out.append(_file_witness(ctx, job))
+    elif job["k"] == "witness-c-crlf-continuation":
+        out.append(_c_crlf_witness(ctx, script))
     elif job["k"] == "witness-kotlin-inline":
         out.append(_kotlin_witness(ctx, script))
     elif job["k"] == "witness-java-textblock":
@@ -315,6 +320,45 @@ def _interp_file(r, lang, script):
     blocks = b.blocks()
     return gen.GenFile(lang, b, blocks, {"layouts": ["interp"], "forms": ["interp"], "decoys": 1, "max_depth": 2,
                                          "nested": sum(1 for x in blocks if x.depth), "blocks": len(blocks)})
+
+
+def _file_witness(ctx, job):
+    """A recorded file (bwverif/witness/*.json: text + the blocks written in its comments) replayed through `list`."""
+    import json
+    w = json.load(open(os.path.join(os.path.dirname(os.path.dirname(os.path.abspath(__file__))), "witness", job["file"])))
+    suffix = job["suffix"]
+    name = langs.file_name_for(suffix)
+    root = run.make_repo({name: w["data"].encode("utf-8")})
+    try:
+        r1 = run.run(ctx.bins["rel"], ["list"], root, stdin=None, env=dict(TERM))
+    finally:
+        run.rm(root)
+    key = h(["witness-file", job["file"]])
+    listing = r1.listing() if r1.cls == "ok" else None
+    got = [[x.get("name"), x.get("line"), x.get("column")] for x in (listing or {}).get(name, [])]
+    if listing is not None and got == w["blocks"]:
+        return Case(HELD, key=key, nontrivial=False, evals=1, counters={"witness_files_ok": 1})
+    lang = langs.SUFFIX_LANG[suffix]
+    return Case(VIOLATED, key=key, nontrivial=False, evals=1, sig="C03/%s/%s" % (lang, "list-" + r1.cls if listing is None else "blocks-differ"),
+                summary="recorded %s file: list ended %s: %s" % (suffix, r1.cls, r1.err_text()[:200]),
+                witness={"files": {name: w["data"]}, "expected": w["blocks"], "observed": r1.brief(1500)})
+
+
+def _c_crlf_witness(ctx, script):
+    """Deterministic reproduction of the recorded tree-sitter-c limitation: in a CRLF file a backslash line continuation inside a
+    string literal is not recognised, so a `//` on the continued line is a comment node although it is inside the literal."""
+    b = fbm.FB("\r\n")
+    b.line_text('const char *m = "a \\')
+    b.line_text('// <block name="in-string">";')
+    src, attrs = fbm.start_tag(_attrs_fn(script)(0))
+    b.open_comment(langs.C_LINE); b.raw(" "); b.tag("start", src, attrs); b.close_comment(); b.nl()
+    b.line_text("int x = 1;")
+    b.open_comment(langs.C_LINE); b.raw(" "); b.tag("end", fbm.END_TAG); b.close_comment(); b.nl()
+    g = gen.GenFile("c", b, b.blocks(), {"layouts": ["own"], "forms": ["line"], "decoys": 1, "max_depth": 1, "nested": 0, "blocks": 1})
+    c = check_file(ctx, "c", g, "rel", {"k": "witness-c-crlf-continuation"})
+    if c.status == VIOLATED:
+        c.sig = "C03/c-crlf-continuation/" + c.sig.split("/", 2)[2]
+    return c
 
 
 def _java_witness(ctx, script):
